@@ -6,6 +6,7 @@ let () =
     | "prog" -> L_prog.run
     | "sched" -> L_sched.run
     | "clock" -> L_clock.run
+    | "history" -> L_history.run
     | _ -> prerr_endline "usage: vmodel <codec>"; exit 2 in
   try
     while true do
